@@ -63,7 +63,7 @@ def Cfg.repaired : Cfg := ⟨true, true, true, true, true⟩
 
 /-- `binary.PutUvarint(buf, x)`: the bytes written (`buf[:n]`). -/
 def putUvarint (x : UInt64) : Bytes :=
-  if h : x ≥ 0x80 then (x.toUInt8 ||| 0x80) :: putUvarint (x >>> 7) else [x.toUInt8]
+  if _h : x ≥ 0x80 then (x.toUInt8 ||| 0x80) :: putUvarint (x >>> 7) else [x.toUInt8]
 termination_by x.toNat
 decreasing_by
   have h1 : (128 : Nat) ≤ x.toNat := by simpa [UInt64.le_iff_toNat_le] using h
@@ -162,13 +162,13 @@ def pairUp {H : Type} (f : HashFns H) : List H → List H
 
 theorem pairUp_length {H : Type} (f : HashFns H) : ∀ l : List H, (pairUp f l).length = l.length / 2
   | [] => rfl
-  | [_] => rfl
+  | [_] => by simp [pairUp]
   | a :: b :: rest => by
     simp only [pairUp, List.length_cons, pairUp_length f rest]; omega
 
 /-- `for len(layer) > 1 { layer = nextLayer }; root = layer[0]`. -/
 def rootLoop {H : Type} (f : HashFns H) (layer : List H) : H :=
-  if h : layer.length > 1 then rootLoop f (pairUp f layer) else layer.headD f.zero
+  if _h : layer.length > 1 then rootLoop f (pairUp f layer) else layer.headD f.zero
 termination_by layer.length
 decreasing_by rw [pairUp_length]; omega
 
@@ -176,7 +176,7 @@ decreasing_by rw [pairUp_length]; omega
 `proofSiblings[i] = append(proofSiblings[i], layer[ancestors[i]^1]); ancestors[i] /= 2`.
 (The Go loop does this for all leaves at once; the model follows one leaf at a time.) -/
 def proofLoop {H : Type} (f : HashFns H) (layer : List H) (anc : Nat) : List H :=
-  if h : layer.length > 1 then
+  if _h : layer.length > 1 then
     layer.getD (anc ^^^ 1) f.zero :: proofLoop f (pairUp f layer) (anc / 2)
   else []
 termination_by layer.length
